@@ -4,15 +4,21 @@ package main
 //
 // `forms := [...]struct{ tag byte; read func(…) }{{x5b, fixed(0)}, {x5d,
 // payload(1, conv)}, …}` scanned by `for i := len(forms); i != 0; { i--; if
-// forms[i].tag == tag { return forms[i].read(r) } }`: a dispatch table built in
-// the frame.  The field-version scheme of pxmem.go (one version per field of a
-// TYPE) cannot keep such a table: the store into row 1 would hide row 0.  When
-// the array is private to its frame — every use is `&arr[i]`, used only for
-// field addresses that are loaded from and stored to, or for a load of the whole
-// element — no other pointer can designate its rows, so (array, index, field)
-// is an exact cell: a store at a decided index writes it, a load at a decided
-// index reads it, a store at an undecided index (or in a summarised loop)
-// forgets the field of every row.
+// forms[i].tag == tag { return forms[i].read(r) } }`, or `compact :=
+// [...]numberForm{{min, max, zero, 0, false}, …}` handed as `compact[:]` to a
+// shared `encodeNumber(v, forms []numberForm, widest numberForm)` that ranges
+// over it: a dispatch table built in the frame.  The field-version scheme of
+// pxmem.go (one version per field of a TYPE) cannot keep such a table: the
+// store into row 1 would hide row 0.  When the array is private — every use
+// is `&arr[i]` (field addresses that are loaded from and stored to, loads of the
+// whole element) or `arr[:]` handed down to static package callees that only
+// read it (index, len, hand further down) — no other pointer can write its
+// rows and every write is a store the explorer executes in the frame that
+// owns the array, so (array, index, field) is an exact cell: a store at a
+// decided index writes it, a load at a decided index reads it (a field never
+// stored holds its zero value), a load of the whole row is the struct of its
+// cells, a store at an undecided index (or in a summarised loop) forgets the
+// field of every row.
 
 import (
 	"fmt"
@@ -25,9 +31,93 @@ import (
 
 var privateArrayCache = map[*ssa.Alloc]bool{}
 
-// privateLocalArray: al is a local array whose elements are only reached
-// through `&al[i]` used for field loads / field stores / element loads.
-func privateLocalArray(al *ssa.Alloc) bool {
+// elemAddrOK: the element address ia is used for loads of the element, for
+// field addresses that are loaded from and (if allowStore) stored to.
+func elemAddrOK(ia *ssa.IndexAddr, allowStore bool) bool {
+	refs := ia.Referrers()
+	if refs == nil {
+		return false
+	}
+	for _, r := range *refs {
+		switch y := r.(type) {
+		case *ssa.DebugRef:
+		case *ssa.UnOp:
+			if y.Op != token.MUL {
+				return false
+			}
+		case *ssa.FieldAddr:
+			fr := y.Referrers()
+			if fr == nil {
+				return false
+			}
+			for _, r2 := range *fr {
+				switch z := r2.(type) {
+				case *ssa.DebugRef:
+				case *ssa.UnOp:
+					if z.Op != token.MUL {
+						return false
+					}
+				case *ssa.Store:
+					if !allowStore || z.Val == ssa.Value(y) || z.Addr != ssa.Value(y) {
+						return false
+					}
+				default:
+					return false
+				}
+			}
+		default:
+			return false
+		}
+	}
+	return true
+}
+
+// readOnlySlice: the slice value v (a view of the whole array) is only indexed
+// for reading, measured, or handed down to static package callees that do the same.
+func (w *World) readOnlySlice(v ssa.Value, depth int) bool {
+	refs := v.Referrers()
+	if refs == nil || depth > 4 {
+		return false
+	}
+	for _, r := range *refs {
+		switch x := r.(type) {
+		case *ssa.DebugRef:
+		case *ssa.IndexAddr:
+			if x.X != v || !elemAddrOK(x, false) {
+				return false
+			}
+		case *ssa.Call:
+			if bi, ok := x.Call.Value.(*ssa.Builtin); ok {
+				if bi.Name() == "len" || bi.Name() == "cap" {
+					continue
+				}
+				return false
+			}
+			if x.Call.IsInvoke() || x.Call.Value == v {
+				return false
+			}
+			sc := x.Call.StaticCallee()
+			if sc == nil || sc.Blocks == nil || !w.inPkg(sc) || len(sc.FreeVars) > 0 {
+				return false
+			}
+			for ai, a := range x.Call.Args {
+				if a != v {
+					continue
+				}
+				if ai >= len(sc.Params) || !w.readOnlySlice(sc.Params[ai], depth+1) {
+					return false
+				}
+			}
+		default:
+			return false
+		}
+	}
+	return true
+}
+
+// privateLocalArray: al is an array allocated by this frame whose rows are only
+// written by field stores through `&al[i]` in the allocating function.
+func (w *World) privateLocalArray(al *ssa.Alloc) bool {
 	if v, ok := privateArrayCache[al]; ok {
 		return v
 	}
@@ -39,48 +129,16 @@ func privateLocalArray(al *ssa.Alloc) bool {
 		if refs == nil {
 			return false
 		}
-		loadOrStoreTo := func(addr ssa.Value, allowStore bool) bool {
-			rr := addr.Referrers()
-			if rr == nil {
-				return false
-			}
-			for _, r := range *rr {
-				switch y := r.(type) {
-				case *ssa.DebugRef:
-				case *ssa.UnOp:
-					if y.Op != token.MUL {
-						return false
-					}
-				case *ssa.Store:
-					if !allowStore || y.Val == addr || y.Addr != addr {
-						return false
-					}
-				case *ssa.FieldAddr:
-					// checked by the caller for element addresses only
-					if allowStore {
-						return false
-					}
-				default:
-					return false
-				}
-			}
-			return true
-		}
 		for _, r := range *refs {
 			switch x := r.(type) {
 			case *ssa.DebugRef:
 			case *ssa.IndexAddr:
-				if x.X != ssa.Value(al) {
+				if x.X != ssa.Value(al) || !elemAddrOK(x, true) {
 					return false
 				}
-				// the element address: field addresses, whole-element loads; no whole-element store
-				if !loadOrStoreTo(x, false) {
+			case *ssa.Slice:
+				if x.X != ssa.Value(al) || x.Low != nil || x.High != nil || x.Max != nil || !w.readOnlySlice(x, 0) {
 					return false
-				}
-				for _, rr := range *x.Referrers() {
-					if fa, ok := rr.(*ssa.FieldAddr); ok && !loadOrStoreTo(fa, true) {
-						return false
-					}
 				}
 			default:
 				return false
@@ -92,6 +150,41 @@ func privateLocalArray(al *ssa.Alloc) bool {
 	return ok
 }
 
+// arrayBase: the private local array an element address designates on the path
+// (named directly, or through `arr[:]` handed down as a parameter).
+func (p *PX) arrayBase(ia *ssa.IndexAddr, fr *pxFrame, st *pxState) (*Term, bool) {
+	switch ia.X.(type) {
+	case *ssa.Alloc, *ssa.Parameter, *ssa.Slice:
+	default:
+		return nil, false
+	}
+	base := p.term(ia.X, fr, st)
+	if base == nil || base.K != TLeaf {
+		return nil, false
+	}
+	al, isLocal := base.V.(*ssa.Alloc)
+	if !isLocal || !p.w.privateLocalArray(al) {
+		return nil, false
+	}
+	return base, true
+}
+
+func arrayCellPrefix(base *Term, field int) string {
+	return fmt.Sprintf("acell:%s/%d/", base.key, field)
+}
+
+// decidedIndexKey: the value of the index when it has exactly one on the path.
+func (p *PX) decidedIndexKey(iv ssa.Value, fr *pxFrame, st *pxState) (string, bool) {
+	it := p.term(iv, fr, st)
+	if it.K == TConst {
+		return it.C.String(), true
+	}
+	if s, _ := p.evalTerm(it, st); s != nil && s.Card().Cmp(one) == 0 {
+		return s.Min().String(), true
+	}
+	return "", false
+}
+
 // arrayCell: the cell a field address &arr[i].f of a private local array
 // designates: the prefix shared by the field of all rows, the key of this row's
 // field ("" when the index is not decided on the path).
@@ -100,22 +193,15 @@ func (p *PX) arrayCell(fa *ssa.FieldAddr, fr *pxFrame, st *pxState) (prefix, key
 	if !isIdx {
 		return "", "", false
 	}
-	al, isLocal := ia.X.(*ssa.Alloc)
-	if !isLocal || !privateLocalArray(al) {
+	base, isPriv := p.arrayBase(ia, fr, st)
+	if !isPriv {
 		return "", "", false
 	}
-	if _, isStruct := fa.X.Type().Underlying().(*types.Pointer).Elem().Underlying().(*types.Struct); !isStruct {
-		return "", "", false
+	prefix = arrayCellPrefix(base, fa.Field)
+	if ik, decided := p.decidedIndexKey(ia.Index, fr, st); decided {
+		return prefix, prefix + ik, true
 	}
-	prefix = fmt.Sprintf("acell:%s/%d/", p.reg(fr, al), fa.Field)
-	it := p.term(ia.Index, fr, st)
-	if it.K != TConst {
-		if s, _ := p.evalTerm(it, st); s != nil && s.Card().Cmp(one) == 0 {
-			return prefix, prefix + s.Min().String(), true
-		}
-		return prefix, "", true
-	}
-	return prefix, prefix + it.C.String(), true
+	return prefix, "", true
 }
 
 func (p *PX) forgetPrefix(prefix string, st *pxState) {
@@ -124,6 +210,8 @@ func (p *PX) forgetPrefix(prefix string, st *pxState) {
 			delete(st.vals, k)
 		}
 	}
+	// from now on an absent cell is unknown, not zero
+	st.vals[prefix+"?"] = zeroTerm(types.Typ[types.Int])
 }
 
 // arrayCellStore: *(&arr[i].f) = vt.
@@ -139,26 +227,81 @@ func (p *PX) arrayCellStore(fa *ssa.FieldAddr, vt *Term, fr *pxFrame, st *pxStat
 	st.vals[key] = vt
 }
 
-// arrayCellLoad: the value last stored into &arr[i].f on this path, or nil.
-func (p *PX) arrayCellLoad(fa *ssa.FieldAddr, fr *pxFrame, st *pxState) *Term {
-	if _, key, ok := p.arrayCell(fa, fr, st); ok && key != "" {
-		return st.vals[key]
+// cellValue: what the cell holds: the value last stored, the zero value of the
+// field when nothing was stored since the array was allocated, nil if unknown.
+func (p *PX) cellValue(prefix, key string, ft types.Type, st *pxState) *Term {
+	if t, ok := st.vals[key]; ok {
+		return t
 	}
-	return nil
+	if _, forgotten := st.vals[prefix+"?"]; forgotten {
+		return nil
+	}
+	return zeroOf(ft)
+}
+
+// arrayCellLoad: the value of &arr[i].f on this path, or nil.
+func (p *PX) arrayCellLoad(fa *ssa.FieldAddr, fr *pxFrame, st *pxState) *Term {
+	prefix, key, ok := p.arrayCell(fa, fr, st)
+	if !ok || key == "" {
+		return nil
+	}
+	ft, _ := componentType(fa.X.Type().Underlying().(*types.Pointer).Elem(), fa.Field)
+	if ft == nil {
+		return nil
+	}
+	return p.cellValue(prefix, key, ft, st)
+}
+
+// arrayRowLoad: *(&arr[i]) of a private local array of structs: the struct of
+// the row's cells (nil unless the index is decided and every field is known).
+func (p *PX) arrayRowLoad(ia *ssa.IndexAddr, fr *pxFrame, st *pxState) *Term {
+	pt, ok := ia.Type().Underlying().(*types.Pointer)
+	if !ok {
+		return nil
+	}
+	stt, ok := pt.Elem().Underlying().(*types.Struct)
+	if !ok || stt.NumFields() == 0 || stt.NumFields() > 12 {
+		return nil
+	}
+	base, isPriv := p.arrayBase(ia, fr, st)
+	if !isPriv {
+		return nil
+	}
+	ik, decided := p.decidedIndexKey(ia.Index, fr, st)
+	if !decided {
+		return nil
+	}
+	var args []*Term
+	var keys []string
+	for i := 0; i < stt.NumFields(); i++ {
+		prefix := arrayCellPrefix(base, i)
+		t := p.cellValue(prefix, prefix+ik, stt.Field(i).Type(), st)
+		if t == nil {
+			return nil
+		}
+		args = append(args, t)
+		keys = append(keys, t.key)
+	}
+	return &Term{K: TPure, Name: "struct", Args: args, T: pt.Elem(), key: "struct{" + strings.Join(keys, ",") + "}"}
 }
 
 // arrayCellHavoc: a store in a summarised loop may have hit any row.
 func (p *PX) arrayCellHavoc(fa *ssa.FieldAddr, fr *pxFrame, st *pxState) {
 	if ia, ok := fa.X.(*ssa.IndexAddr); ok {
-		if al, ok := ia.X.(*ssa.Alloc); ok && privateLocalArray(al) {
-			p.forgetPrefix(fmt.Sprintf("acell:%s/%d/", p.reg(fr, al), fa.Field), st)
+		if base, ok := p.arrayBase(ia, fr, st); ok {
+			p.forgetPrefix(arrayCellPrefix(base, fa.Field), st)
 		}
 	}
 }
 
-// arrayCellReset: the Alloc is executed (again): a new variable.
+// arrayCellReset: the Alloc is executed (again): a new variable, all rows zero.
 func (p *PX) arrayCellReset(al *ssa.Alloc, fr *pxFrame, st *pxState) {
-	if _, isArr := localArrayLen(al); isArr && privateLocalArray(al) {
-		p.forgetPrefix("acell:"+p.reg(fr, al)+"/", st)
+	if _, isArr := localArrayLen(al); isArr && p.w.privateLocalArray(al) {
+		pre := "acell:" + p.term(al, fr, st).key + "/"
+		for k := range st.vals {
+			if strings.HasPrefix(k, pre) {
+				delete(st.vals, k)
+			}
+		}
 	}
 }
